@@ -1,4 +1,5 @@
 import DL.Model.CFRules
+import DL.Lemmas.CFSound7
 
 /-!
 # C11 — getter-return and no-fallthrough never miss a path that falls off the end
@@ -32,5 +33,33 @@ theorem stops_iff_not_continues (m : Meta) : m.stops = !m.continues := by
   unfold Meta.stops Meta.continues
   obtain ⟨u, e⟩ := m
   rcases e with _ | ⟨r, t, i⟩ | _ | _ <;> rfl
+
+/-- **C11 (statement form) on the fragment `inF`** (PARTIAL).  For a statement of the fragment analysed at a reachable
+point of a fresh scope: if the end recorded under its position "stops execution", or the scope has stopped after it,
+then no execution completes the statement normally. -/
+theorem C11_partial (s : Stmt) (hf : s.inF = true) (hnd : s.positions.Nodup) :
+    let a' := visitStmt s { sc := {}, info := Info.empty }
+    (stopsEnd (a'.info.endAt s.pos) = true → (s.compl []).n = false) ∧
+    (stopsEnd a'.sc.end_ = true → (s.compl []).n = false) := by
+  have hpre : Pre true s.positions { sc := {}, info := Info.empty } :=
+    ⟨fun h => by simp at h, fun _ _ => rfl, hnd, Or.inl rfl⟩
+  have h := visitStmt_ok s true _ hf hpre
+  exact ⟨fun hs => by simpa using h.p4 hs, fun hs => by simpa using h.p1 hs⟩
+
+/-- …and a whole statement list (e.g. the body of a getter without nested functions): if the scope has stopped at the
+end of the list, the list cannot complete normally — so a body that can fall off its end is never claimed to stop -/
+theorem C11_partial_body (l : Stmts) (hf : l.inF = true) (hnd : l.positions.Nodup) :
+    stopsEnd (visitStmts l { sc := {}, info := Info.empty }).sc.end_ = true → l.compl.n = false := by
+  have hpre : Pre true l.positions { sc := {}, info := Info.empty } :=
+    ⟨fun h => by simp at h, fun _ _ => rfl, hnd, Or.inl rfl⟩
+  have h := visitStmts_ok l true _ hf hpre
+  intro hs; simpa using h.p1 hs
+
+/-- non-vacuity: `do { if (x) continue; return; } while (c);` is in the fragment, and its metadata does not stop -/
+example :
+    let s : Stmt := .doWhileS 0 (.block 3 (.cons (.ifS 5 (.cons (.expr (.ident "x") .nil) .nil) (.cont 12 none) none)
+      (.cons (.ret 22 .nil) .nil))) (.cons (.expr (.ident "c") .nil) .nil) false
+    s.inF = true ∧ s.positions.Nodup ∧ (s.compl []).n = true ∧
+      stopsEnd ((visitStmt s { sc := {}, info := Info.empty }).info.endAt s.pos) = false := by decide
 
 end DL.Props.C11
